@@ -61,6 +61,11 @@ CHECKS = {
             "Pure function over (index_bits, key, start, page): ~2M generated pages per quick run with slot classes built to hit the masks (near misses, dropped-bit-only differences, zero partial keys, duplicates); both implementations are checked against the specification sets.",
             "The hook calls the two private search functions unchanged.",
             "DESIGN.md 4 C19", "pdbv"),
+    "C20": ("exploration",
+            "differential PBT: generated source databases (sizes incl. multipart, counts > 1, index grown to 17 bits, unselected btree/multitree columns) x generated destination option pairs x forced/automatic selection x overwrite; destination compared with the source model by reads, value iteration (counts) and a raw re-parse of the destination files",
+            "Round-trip/differential oracle between source model and migrated destination over generated option pairs that keep the key hashing; also checks that unselected columns (incl. tree reference counts) and, without overwrite, the source are unchanged.",
+            "Columns migrated to preimage/rc destinations hold value = f(key) in the source; hash<->btree migration is documented as unsupported.",
+            "DESIGN.md 4 C20", "pdbv"),
 }
 
 NOT_YET = {
